@@ -395,6 +395,10 @@ var entryK = map[string]int{"codecs.(*AV1Payloader).Payload": 16}
 // elements) carry "size >= 16 + 4*CSRC when the extension flag is set"; merged with the no-extension outcome
 // that bound is lost.
 var entryRetCap = map[string]int{"codecs.(*AV1Payloader).appendOBUPayload": 16,
+	// the validation of SetExtension and the field decoders of VP8Packet.Unmarshal, once they are split into helpers
+	// with several outcomes each: what the accepted outcome of one helper says (the profile in force; the cursor is
+	// inside the payload) is needed after the next helper has returned
+	"rtp.(*Header).SetExtension": 16, "codecs.(*VP8Packet).Unmarshal": 32,
 	"rtp.(Header).MarshalTo": 16, "rtp.(Header).Marshal": 16, "rtp.(*Packet).MarshalTo": 16, "rtp.(*Packet).Marshal": 16, "rtp.(Packet).Marshal": 16, "rtp.(Packet).MarshalTo": 16}
 
 var entryLoopCap = map[string]int{"codecs.(*AV1Payloader).appendOBUPayload": 4}
